@@ -102,8 +102,7 @@ def _locals_of(h) -> Set[str]:
             out.add(n.id)
         elif isinstance(n, ast.ExceptHandler) and n.name:
             out.add(n.name)
-        elif isinstance(n, ast.arg) and n is not None:
-            out.add(n.arg)
+    # parameters of nested lambdas are their own scope: leave them alone unless the helper also binds the name
     return out
 
 
@@ -171,12 +170,42 @@ class _NeedFlags(Exception):
     pass
 
 
+def _handler_always_leaves(h: ast.ExceptHandler) -> bool:
+    return _always_returns(h.body)
+
+
 def _nest(stmts, on_return):
-    """guard-clause returns (outside loops/try) -> if/else nesting; ``on_return(value)`` gives the statements replacing a return"""
+    """guard-clause returns -> if/else nesting; a try whose handlers all return and whose body does not
+    becomes try/except/else(rest); loops / other complex statements with returns get a done-flag that
+    only guards the statements after them.  ``on_return(ret)`` gives the statements replacing a return."""
     out: List[ast.stmt] = []
     for i, st in enumerate(stmts):
         if isinstance(st, ast.Return):
             out.extend(on_return(st))
+            return out
+        if isinstance(st, ast.Try) and _contains_return(st) and not st.finalbody:
+            body_ret = _contains_return(ast.Module(body=st.body + st.orelse, type_ignores=[]))
+            if not body_ret and st.handlers and all(_handler_always_leaves(h) or not _contains_return(h) for h in st.handlers) and all(_handler_always_leaves(h) for h in st.handlers if _contains_return(h)):
+                falls = [h for h in st.handlers if not _handler_always_leaves(h)]
+                rest = stmts[i + 1:]
+                if not falls or not rest:
+                    new = copy.copy(st)
+                    new.handlers = []
+                    for h in st.handlers:
+                        h2 = copy.copy(h)
+                        h2.body = _nest(h.body, on_return) or [ast.copy_location(ast.Pass(), h)]
+                        new.handlers.append(h2)
+                    new.orelse = list(st.orelse) + (_nest(rest, on_return) if rest else [])
+                    out.append(new)
+                    return out
+        if isinstance(st, LOOPS + (ast.Try, ast.With, ast.AsyncWith)) and _contains_return(st):
+            done = "done__i%d" % _fresh()
+            out.append(ast.copy_location(ast.Assign(targets=[ast.Name(id=done, ctx=ast.Store())], value=ast.Constant(value=False)), st))
+            lowered = _flag([st], False, done, on_return, st)
+            out.extend(lowered)
+            rest = stmts[i + 1:]
+            if rest:
+                out.append(ast.copy_location(ast.If(test=ast.UnaryOp(op=ast.Not(), operand=ast.Name(id=done, ctx=ast.Load())), body=_nest(rest, on_return) or [ast.Pass()], orelse=[]), st))
             return out
         if isinstance(st, ast.If) and _contains_return(st):
             body = _nest(st.body, on_return)
@@ -486,7 +515,21 @@ class _Inliner:
                     out.append(ast.copy_location(ast.Return(value=ast.Constant(value=None)), target_stmt))
                 return out
 
+            # `T = self._h()` where every return of the helper returns the same local: use T for that local
+            if mode == "assign" and isinstance(target_stmt, (ast.Assign, ast.AnnAssign)):
+                tg = target_stmt.targets if isinstance(target_stmt, ast.Assign) else [target_stmt.target]
+                rets = [n for st_ in body for n in ast.walk(st_) if isinstance(n, ast.Return)]
+                if len(tg) == 1 and isinstance(tg[0], ast.Name) and rets and all(isinstance(r_.value, ast.Name) for r_ in rets) and len({r_.value.id for r_ in rets}) == 1:
+                    rname = rets[0].value.id
+                    tname = tg[0].id
+                    used = {x.id for st_ in body for x in ast.walk(st_) if isinstance(x, ast.Name)} | {x.id for b_ in binds for x in ast.walk(b_) if isinstance(x, ast.Name)}
+                    if rname.endswith("__i%s" % rname.rsplit("__i", 1)[-1]) and "__i" in rname and tname not in used:
+                        body = [_Rename({rname: tname}, {}).visit(st_) for st_ in body]
+                        mode = "discard-name"
+
             def on_return(ret: ast.Return, mode=mode):
+                if mode == "discard-name":
+                    return []
                 if mode == "assign":
                     new = copy.deepcopy(target_stmt)
                     new.value = ret.value if ret.value is not None else ast.Constant(value=None)
@@ -498,13 +541,11 @@ class _Inliner:
             if not _contains_return(ast.Module(body=body, type_ignores=[])):
                 tail = on_return(ast.copy_location(ast.Return(value=None), target_stmt)) if mode == "assign" else []
                 return binds + body + tail
+            if mode == "discard-name" and not _always_returns(body):
+                raise _NotInlinable("helper may fall off its end")
             try:
-                if _returns_in_complex(body):
-                    raise _NeedFlags()
-                new = _nest(body, on_return)
-                if mode == "assign" and not _always_returns(body):
-                    # falling off the end returns None: only reachable where no return was taken -> handled by nesting
-                    new = _nest(body + [ast.copy_location(ast.Return(value=None), target_stmt)], on_return)
+                full0 = body + ([ast.copy_location(ast.Return(value=None), target_stmt)] if mode == "assign" and not _always_returns(body) else [])
+                new = _nest(full0, on_return)
                 return binds + new
             except _NeedFlags:
                 done = "done__i%d" % _fresh()
